@@ -364,3 +364,52 @@ func VerifTrav_StopAnytime() {
 	verifAssert(n.asked[2] == asked, "C03: nothing is queried after the lookup has stopped")
 	verifReach("end")
 }
+
+// A node that is advertised under one ID but answers under another, with a node filter that depends on
+// the ID: the filter applies to the ID the node itself reports. The advertised ID passes the filter,
+// the real one does not: the node may be queried, but must not enter the result set.
+func VerifTrav_LyingID() {
+	n := verifNewNet(verifTarget, 3)
+	liar := 1
+	n.nodes[0].neighbours = []int{2}
+	n.nodes[0].aliases = []krpc.NodeInfo{{ID: verifID(verifTarget, 0x40), Addr: n.nodes[liar].addr}}
+	badID := n.nodes[liar].id
+	filter := func(a types.AddrMaybeId) bool {
+		return !(a.Id.Ok && a.Id.Value == badID.Int160())
+	}
+	alpha := verifChoice(1, 2)
+	op := Start(OperationInput{Target: n.target, Alpha: alpha, K: 2, DoQuery: n.doQuery, NodeFilter: filter,
+		DataFilter: func(d any) bool { _, ok := d.(string); return ok }})
+	n.seed(op, 0, verifNondetBool())
+	<-op.Stalled()
+	op.Stop()
+	<-op.Stopped()
+	op.Closest().Range(func(e k_nearest_nodes.Elem) {
+		verifAssert(e.ID != badID, "C02: every member of the result set passed the node filter with the ID it answered under")
+	})
+	verifAssert(op.Closest().Len() == 2, "C02: the two filter-passing responders make up the result")
+	verifReach("end")
+}
+
+// A query that ends only when its context is cancelled (a slow remote): Stop must cancel it, Stopped
+// must fire, and nothing may stay blocked.
+func VerifTrav_StopCancelsInFlight() {
+	n := verifNewNet(verifTarget, 2)
+	n.nodes[0].neighbours = []int{1}
+	entered := 0
+	doQuery := func(ctx context.Context, addr krpc.NodeAddr) QueryResult {
+		if n.index(addr) == 1 {
+			entered++
+			<-ctx.Done() // never answers: returns only when the lookup cancels the query
+			return QueryResult{}
+		}
+		return n.doQuery(ctx, addr)
+	}
+	op := Start(OperationInput{Target: n.target, Alpha: verifChoice(1, 2), K: 2, DoQuery: doQuery})
+	n.seed(op, 0, true)
+	verifQuiesce()
+	verifAssert(entered == 1, "C04 harness: the slow node is being queried")
+	op.Stop()
+	<-op.Stopped()
+	verifReach("end")
+}
